@@ -649,6 +649,7 @@ class ExternalTensor(TensorBase, _protocols.TensorProtocol):  # pylint: disable=
     __slots__ = (
         "_array",
         "_base_dir",
+        "_checksum",
         "_dtype",
         "_length",
         "_location",
@@ -670,6 +671,7 @@ class ExternalTensor(TensorBase, _protocols.TensorProtocol):  # pylint: disable=
         doc_string: str | None = None,
         metadata_props: dict[str, str] | None = None,
         base_dir: os.PathLike | str = "",
+        checksum: str | None = None,
     ) -> None:
         """Initialize an external tensor.
 
@@ -683,6 +685,8 @@ class ExternalTensor(TensorBase, _protocols.TensorProtocol):  # pylint: disable=
             doc_string: The documentation string.
             metadata_props: The metadata properties.
             base_dir: The base directory for the external data. It is used to resolve relative paths.
+            checksum: The optional SHA1 digest recorded in the ``checksum`` entry of
+                ``TensorProto.external_data``. It is kept so that it round-trips; it is not verified.
         """
         super().__init__(name=name, doc_string=doc_string, metadata_props=metadata_props)
         # NOTE: Do not verify the location by default. This is because the location field
@@ -697,6 +701,7 @@ class ExternalTensor(TensorBase, _protocols.TensorProtocol):  # pylint: disable=
         self._base_dir = base_dir
         self._offset: int | None = offset
         self._length: int | None = length
+        self._checksum: str | None = checksum
         self._dtype: _enums.DataType = dtype
         self.name: str = name  # mutable
         self._shape: Shape = shape
@@ -736,6 +741,11 @@ class ExternalTensor(TensorBase, _protocols.TensorProtocol):  # pylint: disable=
     def length(self) -> int | None:
         # Immutable
         return self._length
+
+    @property
+    def checksum(self) -> str | None:
+        # Immutable
+        return self._checksum
 
     @property
     def dtype(self) -> _enums.DataType:
